@@ -853,6 +853,21 @@ pub fn gen_diffint(rng: &mut Rng, tier: &Tier) -> Vec<Case> {
     }
     cases.extend(injected_cases(rng, tier.n(30, 300), &|rng| format!("inject 1 integrate value={}", rat(rng)), false, &["value"]));
     cases.extend(injected_cases(rng, tier.n(30, 300), &|rng| format!("inject 1 differentiate value={}", opt_rat(rng)), false, &["value"]));
+    // a partially ordered / non-finite sample type: f64 with NaN among small integers (exact in f64). The first
+    // output of the differentiator is zero whatever the first sample is
+    for _ in 0..tier.n(60, 600) {
+        let mut c = vec!["new 1 differentiate T=f64".to_string(), "new 2 integrate T=f64".to_string()];
+        for i in 0..rng.range(1, 8) {
+            let v = if rng.chance(1, 4) || (i == 0 && rng.chance(1, 2)) { "nan".to_string() } else { rng.range(-9, 9).to_string() };
+            c.push(format!("f 1 {}", v));
+            c.push(format!("f 2 {}", v));
+            if rng.chance(1, 6) {
+                c.push("reset 1".into());
+                c.push("reset 2".into());
+            }
+        }
+        cases.push(c);
+    }
     // after a reset the first difference / the running sum start over
     for _ in 0..tier.n(60, 600) {
         let mut c = vec!["new 1 differentiate".to_string(), "new 2 integrate".to_string()];
@@ -1079,7 +1094,10 @@ pub fn gen_copy(rng: &mut Rng, tier: &Tier) -> Vec<Case> {
             for _ in 0..rng.range(2, 2 * k.width as i64 + 6) {
                 c.push("clone 1 2".into());
                 c.push("gutsrt 1 3".into());
+                c.push("fresh 1 5".into());
+                c.push("clonefrom 5 1".into());
                 if kind.starts_with("cache") {
+                    c.push("acc 5 cached".into());
                     // a copy of a warm cache remembers what the original remembers, before it is fed anything
                     c.push("acc 2 cached".into());
                     c.push("acc 3 cached".into());
@@ -1088,9 +1106,11 @@ pub fn gen_copy(rng: &mut Rng, tier: &Tier) -> Vec<Case> {
                 let y = random_input(rng, &k);
                 c.push(format!("f 2 {}", x));
                 c.push(format!("f 3 {}", x));
+                c.push(format!("f 5 {}", x));
                 c.push(format!("f 1 {}", x));
                 c.push("same 1 2 C20.copy-continues".into());
                 c.push("same 1 3 C20.copy-continues".into());
+                c.push("same 1 5 C20.copy-continues".into());
                 // one step further on the copies only: the original must be unaffected by what its copies are fed
                 c.push(format!("f 2 {}", y));
                 c.push(format!("f 3 {}", y));
@@ -1156,7 +1176,7 @@ fn with_lifecycle(cases: Vec<Case>, rng: &mut Rng) -> Vec<Case> {
         }
         let body: Vec<String> = c[news.len()..].to_vec();
         let mut v = c.clone();
-        match rng.below(3) {
+        match rng.below(4) {
             0 => {
                 for id in &news {
                     v.push(format!("reset {}", id));
@@ -1165,10 +1185,17 @@ fn with_lifecycle(cases: Vec<Case>, rng: &mut Rng) -> Vec<Case> {
             }
             k => {
                 let at = news.len() + rng.range(0, body.len() as i64) as usize;
-                let op = if k == 1 { "clone" } else { "gutsrt" };
+                let op = if k == 1 { "clone" } else if k == 2 { "gutsrt" } else { "clonefrom" };
                 let tail: Vec<String> = v.split_off(at);
                 for id in &news {
-                    v.push(format!("{} {} {}", op, id, id.parse::<u64>().unwrap() + 50));
+                    let copy = id.parse::<u64>().unwrap() + 50;
+                    if op == "clonefrom" {
+                        // `Clone::clone_from` into an existing instance of the same type (freshly constructed)
+                        v.push(format!("fresh {} {}", id, copy));
+                        v.push(format!("clonefrom {} {}", copy, id));
+                    } else {
+                        v.push(format!("{} {} {}", op, id, copy));
+                    }
                 }
                 for l in tail {
                     let mut t: Vec<String> = l.split(' ').map(|x| x.to_string()).collect();
